@@ -518,6 +518,26 @@ pub fn thread_states(tag: &str) -> Vec<ThreadState> {
     out
 }
 
+/// processor time (user + system, in seconds) that each of the server's threads has used so far
+pub fn thread_cpu_seconds(tag: &str) -> std::collections::BTreeMap<u64, f64> {
+    let mut out = std::collections::BTreeMap::new();
+    let Ok(rd) = std::fs::read_dir("/proc/self/task") else { return out };
+    let tick = unsafe { libc::sysconf(libc::_SC_CLK_TCK) }.max(1) as f64;
+    for e in rd.flatten() {
+        let p = e.path();
+        if std::fs::read_to_string(p.join("comm")).unwrap_or_default().trim() != tag {
+            continue;
+        }
+        let stat = std::fs::read_to_string(p.join("stat")).unwrap_or_default();
+        // the fields behind the parenthesised command name: state is the first, utime and stime the 12th and 13th
+        let Some(rest) = stat.rsplit_once(')').map(|x| x.1) else { continue };
+        let f: Vec<&str> = rest.split_whitespace().collect();
+        let (Some(u), Some(s)) = (f.get(11).and_then(|x| x.parse::<f64>().ok()), f.get(12).and_then(|x| x.parse::<f64>().ok())) else { continue };
+        out.insert(e.file_name().to_string_lossy().parse().unwrap_or(0), (u + s) / tick);
+    }
+    out
+}
+
 /// Two samples of the server's threads show the same standstill: the same threads, all asleep in the same
 /// place, and none of those that wait for a lock or a condition was scheduled in between. A thread that waits
 /// for input (epoll: the main loop with nothing to read) may have been woken and gone back to waiting - the
